@@ -8,7 +8,7 @@ A state is the history that reaches it.  ``Exec.run(pool, history)`` replays the
 clean slate (no handle held, gc.collect() done, interpretation stack at its base) while the boring model of
 ``fv.ref.hashcons`` is stepped in lockstep; after every event the invariants listed in ``LEVEL_RULE`` are evaluated
 on the real objects and compared with the model.  States are de-duplicated on the canonical form ``hashcons.canon``.
-The recipe pool (39 recipes) is explored per sub-pool (every recipe alone, every pair of same-kind recipes, in the
+The recipe pool (48 recipes) is explored per sub-pool (every recipe alone, every pair of same-kind recipes, in the
 thorough tier also every same-kind triple): histories over a sub-pool use every event that is relevant to it.
 """
 import copy
@@ -1047,7 +1047,8 @@ _CROSSCHECK_PAIRS = [
     ("t0a", "t0b"), ("t1ij", "t1ji"), ("t1ij", "binT"), ("t2r", "delta"), ("t2r", "gauss"), ("t1ij", "gauss"),
     ("t2r", "binTT"), ("red", "lam"), ("red", "ctr"), ("bin", "subs"), ("bin", "stack"), ("var", "bin"),
     ("var7", "dB7"), ("dB7", "dProd"), ("dR5", "dProd"), ("dProd", "dProd2"), ("dB75", "dR5"), ("dR5", "dR57"), ("dR5", "dR7"), ("lam", "dR5"),
-    ("oS0", "oS1"), ("oSl", "oSl2"), ("oSl", "oSl3"), ("tN1", "tN2"),
+    ("oS0", "oS1"), ("oSl", "oSl2"), ("oSl", "oSl3"), ("oSlA1", "oSlA2"), ("oSlB1", "oSlB2"), ("oSlC1", "oSlC2"), ("oSf1", "oSf2"),
+    ("oRs", "oRs3"), ("tN1", "tN2"),
 ]
 
 
